@@ -84,7 +84,7 @@ func exhaustiveEngine() evid.Engine {
 				wg.Add(1)
 				go func(k int) {
 					defer wg.Done()
-					wd := r.StartWatchdog("exhaustive", k, 20*time.Second)
+					wd := r.StartWatchdog("exhaustive", k, 60*time.Second)
 					defer wd.Stop()
 					ex := execInput(r, "exhaustive", wd)
 					stop := false
@@ -316,7 +316,7 @@ func TestCheck(t *testing.T) {
 	r := evid.New(t, "C02")
 	wdOf := func(name string) func(Input) *evid.Failure {
 		// rapid engines run sharded; one watchdog per call site is enough to attribute hangs
-		wd := r.StartWatchdog(name, 99, 30*time.Second)
+		wd := r.StartWatchdog(name, 99, 90*time.Second)
 		ex := execInput(r, name, nil)
 		return func(in Input) *evid.Failure {
 			wd.Enter(in)
